@@ -55,7 +55,7 @@ func init() {
 			{Name: "refused-handshakes-in-a-row-then-a-good-peer", Mode: "enum", Reset: kit.ResetGlobals, Body: RefusedInARow, NeedCounters: []string{"good-peer-served-promptly-after-three-or-more-refusals"}},
 			{Name: "many-stalled-handshakes-then-a-good-peer", Mode: "enum", Reset: kit.ResetGlobals, Body: ManyStalled, NeedCounters: []string{"good-peer-served-beside-a-hundred-or-more-stalled-handshakes"}},
 			{Name: "handshake-truncated-or-stalled", Mode: "enum", Reset: kit.ResetGlobals, Body: hsTruncated, NeedCounters: []string{"truncated", "stalled-does-not-delay-others"}},
-			{Name: "frame-length-field", Mode: "enum", Reset: kit.ResetGlobals, Body: frameLengths, NeedCounters: []string{"too-long-dropped-at-once", "in-limit-delivered", "negative-dropped", "limit-set-after-listen"}},
+			{Name: "frame-length-field", Mode: "enum", Reset: kit.ResetGlobals, Body: frameLengths, NeedCounters: []string{"too-long-dropped-at-once", "in-limit-delivered", "negative-dropped", "limit-set-after-listen", "frame-above-the-default-limit-with-the-limit-raised-or-off"}},
 			{Name: "frame-truncated-everywhere", Mode: "enum", Reset: kit.ResetGlobals, Body: frameTruncated, NeedCounters: []string{"truncated-nothing-delivered"}},
 			{Name: fmt.Sprintf("protocol-bodies-len<=%d", L), Mode: "enum", Reset: kit.ResetGlobals, Body: func() { protoBodies(L) }, NeedCounters: []string{"hostile-dropped", "hostile-delivered-as-reference", "control-still-served"}},
 			{Name: "receive-limit-on-listeners-and-dialers", Mode: "enum", Reset: kit.ResetGlobals, Body: c19.MaxRecv, NeedCounters: []string{"limit-enforced", "unrelated-options-in-the-map"}},
@@ -73,6 +73,7 @@ func init() {
 			{Name: "stream-every-length", Mode: "enum", Reset: kit.ResetGlobals, Body: func() { EveryLength(map[bool]int{false: 2200, true: 9000}[tier == "thorough"]) }, NeedCounters: []string{"every-length-written-exact", "every-length-received-exact"}},
 			{Name: "stream-long-protocol-headers", Mode: "enum", Reset: kit.ResetGlobals, Body: LongHeaders, NeedCounters: []string{"header-over-32-bytes-written-exact"}},
 			{Name: "one-publication-several-sub-contexts-each-exact", Mode: "enum", Reset: kit.ResetGlobals, Body: c06.SharedPublication, NeedCounters: []string{"three-or-more-receivers-each-exact"}},
+			{Name: "receive-limit-however-it-was-given", Mode: "enum", Reset: kit.ResetGlobals, Body: c19.MaxRecv, NeedCounters: []string{"limit-enforced", "in-limit-delivered", "limit-lifted"}},
 			{Name: "stream-limit-changed-after-listen", Mode: "enum", Reset: kit.ResetGlobals, Body: limitAfterListen, NeedCounters: []string{"delivered-at-new-limit"}},
 			{Name: "stream-ends-inside-the-frame-after-a-complete-message", Mode: "enum", Reset: kit.ResetGlobals, Body: truncatedAfterComplete, NeedCounters: []string{"ended-right-after-length-prefix", "ended-inside-payload"}},
 			{Name: "stream-full-duplex", Mode: "sched", Bound: map[string]int{"quick": 2, "thorough": 3}[tier], Reset: kit.ResetGlobals, Body: fullDuplex},
@@ -455,21 +456,29 @@ func hsTruncated() {
 func frameLengths() {
 	pickScheme()
 	k := kinds.ByName([]string{"pair", "pull", "rep"}[kit.ChooseFree(3)])
-	limits := []int{-1, 1, 1024, 0}
+	limits := []int{-1, 1, 1024, 0, 3 << 20}
 	limit := limits[kit.ChooseFree(len(limits))]
 	eff := limit
 	if limit == -1 {
 		eff = 1024 * 1024
 	}
 	lens := []int64{-1, -9223372036854775808, 0, 1, int64(eff) - 1, int64(eff), int64(eff) + 1, 1 << 31, 1 << 32, 9223372036854775807}
+	const mib = 1 << 20
 	if limit == 0 {
 		// no limit configured: only sizes that may legitimately be allocated
-		lens = []int64{-1, -9223372036854775808, 0, 1, 70000}
+		lens = []int64{-1, -9223372036854775808, 0, 1, 70000, mib + 1}
+	}
+	if limit == 3*mib {
+		// the limit raised above the default: a frame above the default and within the limit is delivered
+		lens = []int64{-1, 1, mib, mib + 1, int64(eff) + 1, 1 << 32}
 	}
 	ln := lens[kit.ChooseFree(len(lens))]
 	bodyMode := []string{"none", "short", "exact"}[kit.ChooseFree(3)]
-	if bodyMode == "exact" && (ln < 0 || ln > 70000) {
+	if bodyMode == "exact" && (ln < 0 || (ln > 70000 && !(ln <= mib+1 && (limit == 0 || limit == 3*mib)))) {
 		return
+	}
+	if bodyMode == "exact" && ln > mib {
+		kit.Count("frame-above-the-default-limit-with-the-limit-raised-or-off")
 	}
 	if eff == 1024*1024 && bodyMode == "exact" && ln > 4096 {
 		bodyMode = "short"
